@@ -127,6 +127,17 @@ def _family(ctx):
     ctx.floor('C07.R1', n, 15, 'exception classes named in the forward-reference package')
 
 
+def _proxy_resolver_name(ctx, F):
+    """The proxy's own resolver, by role: the module-level function of the metaclass module that imports the proxied attribute
+    from the proxied module (calls import_module_attr_or_sentinel / import_module_attr)."""
+    from sa.fold import FuncVal
+    env = F.module_env(META)
+    cands = [k for k, v in env.items() if isinstance(v, FuncVal) and v.module == META and '.' not in v.qualname and any(
+        isinstance(x, ast.Name) and x.id in ('import_module_attr_or_sentinel', 'import_module_attr') for x in ast.walk(v.node))]
+    ctx.require(len(cands) == 1, f'anchor vanished: the resolver of the forward-reference proxy (candidates {cands})')
+    return cands[0]
+
+
 # ----------------------------------------------------------------------------------------------------------------- R2
 class _Engine:
     """The shared interpreter with the stubs of one rule installed, removed on exit."""
@@ -204,7 +215,7 @@ def _proxy_memo(ctx):
 
         def die(*a, **k):
             raise _Raise(_name(k.get('exception_cls', 'BeartypeDecorHintNonpepException')), 'die_unless_hint')
-        E.stub(env, '_resolve_hint_pep484_ref_str', resolver, ctx)
+        E.stub(env, _proxy_resolver_name(ctx, F), resolver, ctx)
         E.stub(env, 'is_hint', lambda h, *a, **k: h != 'NOT-A-HINT', ctx)
         E.stub(env, 'die_unless_hint', die, ctx)
         n = 0
@@ -254,8 +265,7 @@ def _proxy_resolver(ctx):
     with _Engine(ctx) as E:
         F = E.F
         env = F.module_env(META)
-        fn = env.get('_resolve_hint_pep484_ref_str')
-        ctx.require(isinstance(fn, FuncVal), 'anchor vanished: the resolver of the forward-reference proxy')
+        fn = env.get(_proxy_resolver_name(ctx, F))
         sentinel = env.get('SENTINEL')
         ctx.require(sentinel is not None, 'anchor vanished: SENTINEL in the proxy metaclass module')
         meta = F.const(META, 'BeartypeForwardRefMeta')
